@@ -521,6 +521,7 @@ func (o *operation) handle() {
 	reqMsg := message{
 		sameCompression: sameRequestCompression,
 		sameCodec:       sameRequestCodec,
+		alwaysCompress:  o.clientEnveloper != nil && o.serverEnveloper == nil && o.server.reqCompression != nil,
 	}
 
 	if mustDecodeRequest {
@@ -589,7 +590,7 @@ func (o *operation) handle() {
 	case skipBody:
 		// drain any contents of body so downstream handler sees empty
 		o.drainBody(o.request.Body)
-	case sameRequestCompression && sameRequestCodec && !mustDecodeRequest:
+	case sameRequestCompression && sameRequestCodec && !mustDecodeRequest && !reqMsg.alwaysCompress:
 		// we do not need to decompress or decode; just transforming envelopes
 		o.request.Body = &envelopingReader{rw: rw, r: o.request.Body}
 	default:
@@ -1142,7 +1143,11 @@ func (w *responseWriter) WriteHeader(statusCode int) {
 	sameResponseCodec := sameCodec && !w.op.clientRespNeedsPrep && !w.op.serverRespNeedsPrep
 	mustDecodeResponse := !sameResponseCodec
 
-	respMsg := message{sameCompression: true, sameCodec: sameResponseCodec}
+	respMsg := message{
+		sameCompression: true,
+		sameCodec:       sameResponseCodec,
+		alwaysCompress:  w.op.serverEnveloper != nil && w.op.clientEnveloper == nil && w.op.client.respCompression != nil,
+	}
 
 	if mustDecodeResponse {
 		// We will have to decode and re-encode, so we need the message type.
@@ -1166,7 +1171,7 @@ func (w *responseWriter) WriteHeader(statusCode int) {
 	}
 
 	// Now we can define the transformed response body.
-	if sameResponseCodec && !mustDecodeResponse {
+	if sameResponseCodec && !mustDecodeResponse && !respMsg.alwaysCompress {
 		// we do not need to decompress or decode
 		w.w = &envelopingWriter{rw: w, w: delegate}
 	} else {
@@ -1887,6 +1892,11 @@ type message struct {
 	// wasCompressed is true if the data was originally compressed; this can
 	// be false in a stream when the stream envelope's compressed bit is unset.
 	wasCompressed bool
+	// alwaysCompress is true if the message must be compressed when sent even
+	// if it was not compressed when read. That is the case when envelopes are
+	// removed for a receiver whose compression header applies to the whole
+	// body: there is no per-message flag left that could mark a message as raw.
+	alwaysCompress bool
 	// original size of the message on the wire, in bytes
 	size int
 
@@ -1949,9 +1959,11 @@ func (m *message) advanceToStage(op *operation, newStage messageStage) error {
 		return nil
 	}
 
+	compressOnSend := m.wasCompressed || m.alwaysCompress
+
 	// Fast path: stageRead only, buffer still in original encoding.
 	if m.stage == stageRead && newStage == stageSend && m.sameCodec &&
-		(!m.wasCompressed || m.sameCompression) {
+		((!m.wasCompressed && !compressOnSend) || (m.wasCompressed && m.sameCompression)) {
 		m.stage = newStage
 		return nil
 	}
@@ -1964,11 +1976,15 @@ func (m *message) advanceToStage(op *operation, newStage messageStage) error {
 			}
 			return m.advanceToStage(op, newStage)
 		}
-		if err := m.decompress(op); err != nil {
-			return err
+		if m.wasCompressed {
+			if err := m.decompress(op); err != nil {
+				return err
+			}
 		}
-		if err := m.compress(op); err != nil {
-			return err
+		if compressOnSend {
+			if err := m.compress(op); err != nil {
+				return err
+			}
 		}
 
 	case m.stage == stageRead && newStage == stageDecoded:
@@ -1987,7 +2003,7 @@ func (m *message) advanceToStage(op *operation, newStage messageStage) error {
 				return err
 			}
 		}
-		if m.wasCompressed {
+		if compressOnSend {
 			if err := m.compress(op); err != nil {
 				return err
 			}
